@@ -752,8 +752,17 @@ class YAMLPath:
                         SearchKeywordTerms(search_inverted, search_keyword,
                                            segment_id)
                     ))
-                else:
+                elif segment_type in (
+                    PathSegmentTypes.INDEX, PathSegmentTypes.ANCHOR
+                ):
                     path_segments.append((segment_type, segment_id))
+                elif segment_id or segment_type is not None:
+                    raise YAMLPathException((
+                        "Unexpected content before the closing bracket at"
+                        " character index {}, \"{}\"")
+                        .format(char_idx, segment_id)
+                        , yaml_path
+                    )
 
                 segment_id = ""
                 segment_type = None
